@@ -5,23 +5,27 @@ from .. import ffmodel as F, gp_harness as H, ref_genparams as R
 from ..runner import crash_violation
 
 # ------------------------------------------------------------------ modifications
-MOD_BLOCKS = {"ALA": F.BLOCKS["ALA"], "GLY": F.BLOCKS["GLY"], "B": F.BLOCKS["B"]}
+# "A" is not an amino acid, but its name is part of one (ALA): terminal modifications do not apply to it
+MOD_BLOCKS = {"ALA": F.BLOCKS["ALA"], "GLY": F.BLOCKS["GLY"], "B": F.BLOCKS["B"], "A": F.BLOCKS["A"]}
 MODS = {
     "N-ter": dict(atoms=[("BB", {"replace": {"atype": "Qd", "charge": 1.0}}), ("SC1", {"replace": {"mass": 40.0}})], inter={}),
     "C-ter": dict(atoms=[("BB", {"replace": {"atype": "Qa", "charge": -1.0}})], inter={}),
     "cap": dict(atoms=[("BB", {"replace": {"mass": 80.0}}), ("SC1", {"replace": {"charge": 0.3}})],
                 inter={"bonds": [F.I(["BB", "SC1"], ["1", "0.29", "999"], {"comment": "cap"})]}),
 }
-MOD_LINK = dict(resname=["ALA", "GLY", "B"], inter={"bonds": [F.I(["BB", "+BB"], ["1", "0.35", "1250"])]})
+MOD_LINK = dict(resname=["ALA", "GLY", "B", "A"], inter={"bonds": [F.I(["BB", "+BB"], ["1", "0.35", "1250"])]})
 # the same backbone link, but it also renames the side atom of the residue that makes the bond: afterwards a modification that
 # names SC1 names nothing in that residue any more (names are those the molecule has when the modification is applied)
-MOD_LINK_RENAME = dict(resname=["ALA", "GLY", "B"], atoms={"SC1": {"replace": {"atomname": "SCX"}}},
+MOD_LINK_RENAME = dict(resname=["ALA", "GLY", "B", "A"], atoms={"SC1": {"replace": {"atomname": "SCX"}}},
                        inter={"bonds": [F.I(["BB", "+BB"], ["1", "0.35", "1250"])]})
 PROTEIN = {"ALA", "GLY"}
 
 
-def mod_spec(with_mods=True, rename=False):
-    return dict(blocks=MOD_BLOCKS, links=[MOD_LINK_RENAME if rename else MOD_LINK], mods=MODS if with_mods else {})
+def mod_spec(with_mods=True, rename=False, only_cap=False):
+    mods = MODS if with_mods else {}
+    if only_cap:
+        mods = {"cap": MODS["cap"]}      # a force field that defines a modification, but not the default termini
+    return dict(blocks=MOD_BLOCKS, links=[MOD_LINK_RENAME if rename else MOD_LINK], mods=mods)
 
 
 def mod_cases(tier):
@@ -30,6 +34,11 @@ def mod_cases(tier):
             yield dict(kind="mods", names=list(names), tier=tier)
     yield dict(kind="mods", names=["ALA", "B", "ALA"], tier=tier)
     yield dict(kind="mods", names=["B", "ALA", "GLY"], tier=tier)
+    for names in (["A", "ALA", "A"], ["ALA", "A"], ["A", "A"], ["A"]):
+        yield dict(kind="mods", names=names, tier=tier)
+    # polymers without amino acids at the ends, force field without N-ter / C-ter
+    for names in (["B", "B"], ["A", "B", "A"], ["B", "ALA", "B"]):
+        yield dict(kind="mods", names=names, tier=tier, only_cap=True)
     for names in (["ALA", "ALA"], ["ALA", "ALA", "ALA"], ["ALA", "GLY", "ALA"], ["GLY", "ALA", "ALA"]):
         yield dict(kind="mods", names=names, tier=tier, rename=True)
 
@@ -84,18 +93,20 @@ def check_mods(case, stats):
     viols, evals, keys = [], 0, []
     names = case["names"]
     n = len(names)
-    spec = mod_spec(rename=bool(case.get("rename")))
+    spec = mod_spec(rename=bool(case.get("rename")), only_cap=bool(case.get("only_cap")))
     ff_text = F.render_ff(spec)
     for start in (1, 5):
         for keymode in ("resid-1", "shifted", "reversed"):
             rg = dict(n=n, edges=[[i, i + 1] for i in range(n - 1)], resids=[start + i for i in range(n)], resnames=names)
             for sel in mod_selections(names, start, rename=bool(case.get("rename"))):
+                if case.get("only_cap") and any(x[2] != "cap" for x in sel):
+                    continue
                 if case["tier"] == "quick" and len(sel) == 2 and (start == 5) != (keymode == "shifted"):
                     continue
                 if keymode == "reversed" and (len(sel) > 1 or start == 5):
                     continue
                 evals += 1
-                case1 = dict(kind="mods1", names=names, start=start, keymode=keymode, sel=[list(s) for s in sel], rename=bool(case.get("rename")))
+                case1 = dict(kind="mods1", names=names, start=start, keymode=keymode, sel=[list(s) for s in sel], rename=bool(case.get("rename")), only_cap=bool(case.get("only_cap")))
                 mods_arg = [[f"{x[3] if len(x) == 4 else x[1]}{rg['resids'][x[0]]}", x[2]] for x in sel]
                 key_perm = [start - 1 + i for i in range(n)] if keymode == "resid-1" else [10 + 2 * i for i in range(n)] if keymode == "shifted" else \
                     [20 - i for i in range(n)]         # node keys running against the residue ids
@@ -354,7 +365,8 @@ def run_extra(case):
     kind = case["kind"]
     if kind.endswith("1"):      # replay of a single sub-case: re-run its family and keep matching violations
         fam = kind[:-1]
-        src = dict(kind=fam, tier="thorough", names=case.get("names"), n=(case.get("rg") or {}).get("n"), seq=case.get("seq"))
+        src = dict(kind=fam, tier="thorough", names=case.get("names"), n=(case.get("rg") or {}).get("n"), seq=case.get("seq"),
+                   rename=case.get("rename"), only_cap=case.get("only_cap"))
         v, _, _ = FUNCS[fam](src, stats)
         keep = [x for x in v if all(x["case"].get(k) == case[k] for k in case if k != "kind")]
         return dict(evals=1, keys=[], violations=keep, stats={})
